@@ -243,6 +243,23 @@ class _TplEval:
                 return v
             if name == 'len' and e.args and norm(e.args[0]) in self.iter_counts:
                 return rf.RF(rf.Poly.const(self.iter_counts[norm(e.args[0])]))
+            if name == 'len' and len(e.args) == 1:
+                try:
+                    v = self.value(e.args[0])
+                except rf.Unknown:
+                    v = None
+                if isinstance(v, list):
+                    return rf.RF(rf.Poly.const(len(v)))
+            if name == 'count_nonzero' and len(e.args) == 1 and not e.keywords:
+                # a number read off the accumulated state (how many classes / entries are populated): it is not a constant of the
+                # configuration, so it is a symbol of its own - a formula that divides by it is not the definition's
+                return rf.RF(rf.Poly.sym('nonzero_' + ''.join(ch if ch.isalnum() else '_' for ch in norm(e.args[0]))[:40]))
+            if name in ('max', 'min', 'maximum', 'minimum') and len(e.args) == 2 and isinstance(e.func, (ast.Name, ast.Attribute)):
+                vs = [self.value(a) for a in e.args]
+                if all(isinstance(v, rf.RF) for v in vs):
+                    if vs[0].num * vs[1].den == vs[1].num * vs[0].den:
+                        return vs[0]
+                    return rf.RF(rf.Poly.sym(name + '_' + ''.join(ch if ch.isalnum() else '_' for ch in norm(e))[:50]))
         if isinstance(e, ast.BinOp):
             l, r = self.value(e.left), self.value(e.right)
             if isinstance(e.op, ast.Pow):
